@@ -186,16 +186,27 @@ def overlap_exact(ssj, rec, case, L, R, tok, size, op, lk, rk, la, ra, n_jobs=1,
         rec.add('raised', '%s: %s' % (type(e).__name__, str(e)[:80]))
         return {'present': len(ov), 'call': call}
     got = {}
+    listed_missing = {}
     miss = view.missing_pairs()
     for (i, j, score, lkey, rkey) in oracle.result_pairs(df, call, view):
         if i is None or j is None:
             rec.violation('overlap_tables', 'unknown key pair (%r, %r)' % (lkey, rkey), case=case)
             continue
         if (i, j) in miss:
+            listed_missing[(i, j)] = listed_missing.get((i, j), 0) + 1
             continue
         if (i, j) in got:
             rec.violation('overlap_tables', 'pair (%r, %r) listed twice' % (lkey, rkey), case=case)
         got[(i, j)] = score
+    # pairs with a missing side: filter_pair keeps them iff allow_missing, so filter_tables lists exactly them
+    rec.count('overlap_tables_missing_pairs', len(miss) if allow_missing else 0)
+    for p in miss:
+        n_listed = listed_missing.get(p, 0)
+        if n_listed != (1 if allow_missing else 0):
+            rec.violation('overlap_tables', 'OverlapFilter(size=%r, %s, allow_missing=%r).filter_tables lists the '
+                          'pair (%r, %r) with a missing value %d times' % (size, op, allow_missing, view.lkeys[p[0]],
+                                                                            view.rkeys[p[1]], n_listed), case=case)
+            break
     for p in set(exp) | set(got):
         if view.lvals[p[0]] == '' or view.rvals[p[1]] == '':
             # '' has tokens under a padded q-gram tokenizer: filter_pair must drop such a pair
